@@ -1120,7 +1120,7 @@ I10_VARIANT = {
     "transpose": {"trans", "_trans", "s", "mfs", "get_shape", "get_legs", "get_signature", "ndim"} - {"ndim"},
 }
 # fields of struct that conj() leaves alone (t, D, size, diag): reading them across the rebinding is harmless
-I10_STRUCT_KEEP = {"conj": {"t", "D", "size", "diag"}, "flip_signature": {"D", "size", "diag"}}
+I10_STRUCT_KEEP = {"conj": {"t", "D", "size", "diag"}, "flip_signature": {"D", "size", "diag"}, "consume_transpose": {"n", "size", "diag"}}
 
 
 def run_I10(chk, prefixes, rule="I10", floor=2):
